@@ -17,6 +17,11 @@ from .model import body_nodes
 
 def split_ifexp(expr, facts=frozenset()):
     """[(leaf_expr, facts)] for nested conditional expressions."""
+    if isinstance(expr, ast.IfExp) and isinstance(expr.body, ast.Call) and isinstance(expr.body.func, ast.Attribute) \
+            and expr.body.func.attr == "item" and not expr.body.args and norm(expr.body.func.value) == norm(expr.orelse) \
+            and ("isinstance(" in norm(expr.test) or "hasattr(" in norm(expr.test)):
+        # V.item() if isinstance(V, np.generic) else V : one value, converted when it can be -- not two cases
+        return [(expr, frozenset(facts))]
     if isinstance(expr, ast.IfExp):
         return (split_ifexp(expr.body, frozenset(facts) | frozenset(test_facts(expr.test, True)))
                 + split_ifexp(expr.orelse, frozenset(facts) | frozenset(test_facts(expr.test, False))))
